@@ -11,6 +11,7 @@ from __future__ import annotations
 import itertools
 import json
 import os
+import re
 import shutil
 import tempfile
 from pathlib import Path
@@ -25,7 +26,9 @@ RULE = (
     "Hypothesis-generated stacks of 1-3 chained TOML files (extend_config at any key position, "
     "top-level values, overrides for prefixes of a.b.c / x, disable_all) plus a command-line layer; "
     "one evaluation = one (stack, option, module path) lookup compared with the reference, or one "
-    "invalid stack that must raise InvalidConfigOption. Non-trivial = at least two layers set the "
+    "invalid stack that must raise InvalidConfigOption; a CLI route runs `python -m pyanalyze --config-file ... "
+    "--display-options` on generated stacks and compares the printed effective value and the printed instance "
+    "order (precedence order) per option and module with the reference. Non-trivial = at least two layers set the "
     "queried option with different values or the path matches at least two overrides (distinct by "
     "stack hash, option, path); invalid stacks count as non-trivial per (kind, location)."
 )
@@ -228,6 +231,81 @@ def check_valid(stack, cmdline, d, col, queries=None, via_visitor=False):
     return fails
 
 
+def shadowed_by_disable_all(stack, label, opt):
+    """Does the section behind a reference layer label (f<i>.top / f<i>.ov<n>) set opt explicitly and also
+    hold `disable_all = true` (explicit False: two equal instances are listed)?"""
+    m = re.match(r"^f(\d+)\.(top|ov(\d+))$", label)
+    if not m:
+        return False
+    f = stack[int(m.group(1))]
+    sections = []
+    if m.group(2) == "top":
+        sections.append([e for e in f["top"] if e[0] != "overrides"])
+    else:
+        for k, v in f["top"]:
+            if k == "overrides":
+                sections += [o for o in v if len(dict((a, b) for a, b in o)["module"].split(".")) == int(m.group(3))]
+    # pyanalyze adds a False instance for every code the section does not explicitly *enable*
+    return any(any(k == opt and v is False for k, v in sec) and any(k == "disable_all" and v is True for k, v in sec) for sec in sections)
+
+
+def display_check(stack, d, col=None):
+    """`python -m pyanalyze --config-file f0.toml --display-options`: the printed effective value and the
+    printed instance order (pyanalyze lists them in precedence order) against the reference, for the root
+    module path and for every override module that appears."""
+    import ast as _ast
+
+    main = write_stack(stack, d)
+    code, out, err = sut.run_cli(["--config-file", str(main), "--display-options"], cwd=d)
+    if code != 0 or "Options:" not in out:
+        return [("cli|display-options-failed", f"exit status {code}: {(err or out)[-300:]}", None, None)]
+    shown = {}
+    cur = None
+    for line in out.splitlines():
+        m = re.match(r"^    (\w+) \(value: (.*)\)$", line)
+        if m:
+            cur = m.group(1)
+            shown[cur] = {"value": m.group(2), "instances": []}
+            continue
+        m = re.match(r"^        (.*) \(((?:module: ([\w.]+), )?from (?:config file|command line))\)$", line)
+        if m and cur:
+            shown[cur]["instances"].append((m.group(1), tuple(m.group(3).split(".")) if m.group(3) else ()))
+
+    def parse(text):
+        try:
+            return _ast.literal_eval(text)
+        except Exception:
+            return text
+    fails = []
+    for opt in ALL_OPTS:
+        if opt not in shown:
+            continue
+        mods = sorted({mod for _, mod in shown[opt]["instances"]} | {()})
+        for path in mods:
+            exp, layers = reference(stack, {}, opt, path)
+            want = []
+            for label, v in layers[:-1]:
+                want.append(v)
+                if opt in ALL_CODE_NAMES and shadowed_by_disable_all(stack, label, opt):
+                    # a section holding both `disable_all = true` and an explicit value for the code yields
+                    # two instances; the explicit one comes first (it decides, as the lookups confirm)
+                    want.append(False)
+            got = [parse(t) for t, mod in shown[opt]["instances"] if path[: len(mod)] == mod]
+            norm = lambda xs: [list(x) if isinstance(x, (list, tuple)) else x for x in xs]
+            if col is not None:
+                col.case(nontrivial_id=("cli", runner.h64(json.dumps(stack, sort_keys=True)), opt, path) if len(want) >= 2 else None,
+                         label=["route:cli-display", f"kind:{kind_of(opt)}"])
+            if norm(got) != norm(want):
+                fails.append((f"cli|instance-order|{kind_of(opt)}",
+                              f"--display-options lists for {opt} and module {'.'.join(path) or '()'} the values {got} in precedence order; "
+                              f"the reference order is {want} (layers {layers})", opt, path))
+        if kind_of(opt) != "list":
+            exp, layers = reference(stack, {}, opt, ())
+            if parse(shown[opt]["value"]) != exp:
+                fails.append((f"cli|value|{kind_of(opt)}", f"--display-options shows {opt} (value: {shown[opt]['value']}), reference says {exp!r}", opt, ()))
+    return fails
+
+
 def ext_position(stack):
     keys = [k for k, _ in stack[0]["top"]]
     if "extend_config" not in keys:
@@ -413,6 +491,7 @@ def shards(tier, seed):
     out = [{"mode": "random", "index": i, "stacks": per, "invalid": inv} for i in range(n)]
     out.append({"mode": "lattice"})
     out.append({"mode": "visitor", "stacks": 6 if tier == "quick" else 60})
+    out += [{"mode": "cli", "index": i, "stacks": 8 if tier == "quick" else 150} for i in range(2)]
     return out
 
 
@@ -435,6 +514,17 @@ def run_shard(spec):
             return col.result()
 
         seed = runner.mix_seed(spec["seed"], ID, spec["name"])
+
+        if spec["mode"] == "cli":
+            def make_c():
+                @given(stacks())
+                def t(sc):
+                    stack, _ = sc
+                    for key, what, o, p in display_check(stack, d, col):
+                        col.fail(key, what, {"stack": stack, "cmdline": {}, "opt": o, "path": p, "cli": True}, raise_new=True)
+                return t
+            runner.drive(col, make_c, seed, spec["stacks"], replay=replay)
+            return col.result()
 
         if spec["mode"] == "visitor":
             def make_v():
@@ -492,6 +582,10 @@ def replay(case):
                     "what": f"invalid stack ({case['invalid']} at {case.get('loc')}) "
                     + ("accepted silently" if r is False else f"raised {r}"),
                     "case": case}
+        if case.get("cli"):
+            for key, what, o, p in display_check(case["stack"], d):
+                return {"key": key, "what": what, "case": case}
+            return None
         q = [(case["opt"], tuple(case["path"]))] if case.get("opt") else None
         via = bool(case.get("via_visitor"))
         for key, what, o, p in check_valid(case["stack"], case["cmdline"], d, None, q, via_visitor=via):
